@@ -45,11 +45,27 @@ fn assoc_agree(s: &GenState, prog: &Program) -> bool {
 }
 
 pub fn check_state(s: &GenState, spec: &SettingsSpec, ctx: &mut Ctx) {
+    check_state_prog(s, &s.program(), spec, ctx)
+}
+
+/// the helper types of D-generic under the names of prelude types (user types in `p::a` / `p::b` that merely
+/// share a name with `core::ops::Range`, `Duration`, `Option`, `BTreeMap`)
+pub fn prelude_named(prog: &Program) -> Program {
+    let mut p = prog.clone();
+    p.defs[G_N].name = "Duration".into();
+    p.defs[G_H].name = "Range".into();
+    p.defs[G_M].name = "Option".into();
+    p.defs[G_W].name = "BTreeMap".into();
+    p
+}
+
+/// `prog` is `s.program()`, possibly with renamed helper types
+pub fn check_state_prog(s: &GenState, prog: &Program, spec: &SettingsSpec, ctx: &mut Ctx) {
     if !wf5_ok(s) {
         ctx.exclude("WF5: parameter under compact instantiated with a non-compactable type (not a valid Rust program)");
         return;
     }
-    let prog = s.program();
+    let prog = prog.clone();
     let def = &prog.defs[G_D];
     for a in &s.insts {
         if let Err(why) = coincidence(def, a, &prog) {
@@ -299,6 +315,10 @@ pub fn run(tier: &str, seed: u64) -> i32 {
             }
             check_state(s, spec, ctx);
         }
+        // helper types named like prelude types, for the states of construction depth <= 2 (thorough: <= 3)
+        if s.fields.len() + s.insts.len() <= if thorough { 4 } else { 3 } {
+            check_state_prog(s, &prelude_named(&s.program()), &settings[0].1, ctx);
+        }
     });
     report.add(st);
     report.assumptions = vec![
@@ -317,7 +337,7 @@ pub fn replay(v: &serde_json::Value) -> Result<Vec<Violation>, String> {
     };
     let s = state_of_program(prog).ok_or("cannot recover the D-generic state from the program")?;
     let mut ctx = Ctx::default();
-    check_state(&s, &case.settings, &mut ctx);
+    check_state_prog(&s, prog, &case.settings, &mut ctx);
     Ok(ctx.violations)
 }
 
